@@ -3,8 +3,10 @@ EXTENDS Fields
 WriterFormats == {"delimited", "fixed"}
 AllFormats == {"delimited", "fixed", "excel", "ods"}
 S(n) == <<n>>
-\* none, exact 2, lower-only 2..., upper-only ...2, multi-item 1...1, 3...4
-Decls == { <<>>, << <<S(2), S(2)>> >>, << <<S(2), <<>>>> >>, << <<<<>>, S(2)>> >>, << <<S(1), S(1)>>, <<S(3), S(4)>> >> }
+\* none, exact 2, lower-only 2..., upper-only ...2, multi-item 1...1, 3...4, and two items that are open to either side with
+\* a gap between them, ...1, 4... (the declaration as a whole has neither a lower nor an upper limit, yet it excludes 2 and 3)
+Decls == { <<>>, << <<S(2), S(2)>> >>, << <<S(2), <<>>>> >>, << <<<<>>, S(2)>> >>, << <<S(1), S(1)>>, <<S(3), S(4)>> >>,
+           << <<<<>>, S(1)>>, <<S(4), <<>>>> >> }
 Widths == {1, 3}
 \* thorough tier: also 0..., ...0 (only the empty cell), 1...3, exact 5, the two-item 2, 4...5 and three items
 DeepDecls == Decls \cup { << <<S(0), <<>>>> >>, << <<<<>>, S(0)>> >>, << <<S(1), S(3)>> >>, << <<S(5), S(5)>> >>,
